@@ -91,7 +91,7 @@ var universe = []*elem{
 	{name: "sa", src: `"a"`, quick: true},
 	{name: "sempty", src: `""`},
 	{name: "yabc", src: "'abc", quick: true, m: &mv{k: "sym", s: "abc"}},
-	{name: "yABC", src: `(intern "ABC")`, quick: true, m: &mv{k: "sym", s: "ABC"}},
+	{name: "yABC", src: `(car (list (intern "ABC")))`, quick: true, m: &mv{k: "sym", s: "ABC"}},
 	{name: "yabd", src: "'abd"},
 	{name: "kabc", src: ":abc", quick: true, m: &mv{k: "sym", s: ":abc"}},
 	{name: "ca", src: `#\a`, quick: true, m: &mv{k: "char", s: "a"}},
